@@ -10,8 +10,8 @@
 
    The hypothesis [program_vars_named P] (every variable of P has a non-empty name) is what the
    ASP parser guarantees; it is needed because a hand-built program with the variable "" makes
-   tau* bind a variable with an empty name.  For the mu representation the parser image of the
-   natural translation is a hypothesis ([mu_image], not proved here): strong_panic_only_overflow_partial. *)
+   tau* bind a variable with an empty name.  Both representations are covered: tau*
+   (ParserImagePipeline.tau_star_pi) and mu (ParserImageNatural.mu_full_pi). *)
 From Coq Require Import List Ascii String ZArith NArith Bool Lia.
 From Anthem Require Import Base.ISet Syntax.Fol Syntax.Asp
   Model.Apply Model.Gamma Model.Break Model.Problem Model.Outline Model.Strong Model.External
@@ -19,7 +19,7 @@ From Anthem Require Import Base.ISet Syntax.Fol Syntax.Asp
   Model.StrongFull Model.ExternalFull Model.ClsTerm Model.Tightness Model.PrivRec
   Proofs.CompletionShape Proofs.CompletionOk Proofs.PlaceholderOk Proofs.FagesBridge Proofs.FagesTauStar
   Proofs.TauStarProgram Proofs.MuFullOk
-  Proofs.StrategyClsOk Proofs.SimplClassicTotal Proofs.ParserImage Proofs.ParserImagePipeline
+  Proofs.StrategyClsOk Proofs.SimplClassicTotal Proofs.ParserImage Proofs.ParserImagePipeline Proofs.ParserImageNatural
   Proofs.StrongFullOk Proofs.StrongFuel Proofs.ExtFuel.
 Import ListNotations.
 Open Scope string_scope.
@@ -141,40 +141,44 @@ Proof.
   destruct (stage (st_simplify t) (simp_classic_full_fuel fuel) (gamma_theory r1)); cbn [sbind]; [discriminate|congruence|discriminate].
 Qed.
 
-(* tau-star representation: closed *)
+(* both representations (tau-star: tau_star_pi; mu: mu_full_pi): closed *)
 Theorem strong_panic_only_overflow fuel t :
-  st_repr t = ReprTauStar -> program_vars_named (st_left t) -> program_vars_named (st_right t) ->
+  program_vars_named (st_left t) -> program_vars_named (st_right t) ->
   strong_decompose_full_fuel fuel t = SPanic ->
   ~ no_global_overflow (st_left t) \/ ~ no_global_overflow (st_right t).
 Proof.
-  intros Hr Hl Hrt. apply strong_panic_only_overflow_partial.
-  - intros th. unfold repr_full. rewrite Hr.
-    destruct (tau_star (st_left t)) as [G|] eqn:E; cbn [of_panic]; [|discriminate].
-    intros [= <-]. exact (tau_star_pi _ _ Hl E).
-  - intros th. unfold repr_full. rewrite Hr.
-    destruct (tau_star (st_right t)) as [G|] eqn:E; cbn [of_panic]; [|discriminate].
-    intros [= <-]. exact (tau_star_pi _ _ Hrt E).
+  intros Hl Hrt. apply strong_panic_only_overflow_partial.
+  - intros th. unfold repr_full. destruct (st_repr t).
+    + destruct (mu_full (st_left t)) as [G|] eqn:E; cbn [of_panic]; [|discriminate].
+      intros [= <-]. exact (mu_full_pi _ _ Hl E).
+    + destruct (tau_star (st_left t)) as [G|] eqn:E; cbn [of_panic]; [|discriminate].
+      intros [= <-]. exact (tau_star_pi _ _ Hl E).
+  - intros th. unfold repr_full. destruct (st_repr t).
+    + destruct (mu_full (st_right t)) as [G|] eqn:E; cbn [of_panic]; [|discriminate].
+      intros [= <-]. exact (mu_full_pi _ _ Hrt E).
+    + destruct (tau_star (st_right t)) as [G|] eqn:E; cbn [of_panic]; [|discriminate].
+      intros [= <-]. exact (tau_star_pi _ _ Hrt E).
 Qed.
 
-(* with C03_full_panics_on_overflow: SPanic <-> the overflow class, for tau-star tasks over named programs *)
+(* with C03_full_panics_on_overflow: SPanic <-> the overflow class, for programs with named variables *)
 Corollary strong_panic_iff_overflow fuel t :
-  st_repr t = ReprTauStar -> program_vars_named (st_left t) -> program_vars_named (st_right t) ->
+  program_vars_named (st_left t) -> program_vars_named (st_right t) ->
   (strong_decompose_full_fuel fuel t = SPanic <->
    ~ no_global_overflow (st_left t) \/ ~ no_global_overflow (st_right t)).
 Proof.
-  intros Hr Hl Hrt. split; [apply strong_panic_only_overflow; assumption|apply strong_decompose_full_fuel_panic_overflow].
+  intros Hl Hrt. split; [apply strong_panic_only_overflow; assumption|apply strong_decompose_full_fuel_panic_overflow].
 Qed.
 
 (* hence, together with termination: outside the overflow class every sufficiently large fuel
    returns problems *)
 Corollary strong_total_outside_overflow t :
-  st_repr t = ReprTauStar -> program_vars_named (st_left t) -> program_vars_named (st_right t) ->
+  program_vars_named (st_left t) -> program_vars_named (st_right t) ->
   no_global_overflow (st_left t) -> no_global_overflow (st_right t) ->
   exists n pbs, forall m, n <= m -> strong_decompose_full_fuel m t = SOk pbs.
 Proof.
-  intros Hr Hl Hrt Hol Hor. destruct (strong_eventual_result t) as [n [r [Hne Hn]]].
+  intros Hl Hrt Hol Hor. destruct (strong_eventual_result t) as [n [r [Hne Hn]]].
   destruct r as [pbs| |]; [exists n, pbs; exact Hn| |congruence].
-  exfalso. destruct (strong_panic_only_overflow n t Hr Hl Hrt (Hn n (le_n _))); tauto.
+  exfalso. destruct (strong_panic_only_overflow n t Hl Hrt (Hn n (le_n _))); tauto.
 Qed.
 
 (* ============================================ external equivalence: the translations never panic *)
